@@ -588,6 +588,9 @@ func callpathFamily(seed uint64, tier string, args []string) {
 		add("Raw", jsonrpc.RawParams(v))
 		add("RawE", jsonrpc.RawParams(v))
 	}
+	// nil raw params: the JSON round trip of a nil raw message is `null` (an empty non-nil one is not serialisable)
+	add("Raw", jsonrpc.RawParams(nil))
+	add("RawE", jsonrpc.RawParams(nil))
 	if tier == "thorough" {
 		for i := 0; i < 400; i++ {
 			rs := func() string {
